@@ -63,3 +63,17 @@ package interp
 //@   ensures operands-mutually-assignable: err == nil ==> n.child[0].typ.assignableTo(n.child[1].typ) || n.child[1].typ.assignableTo(n.child[0].typ)
 //@   ensures other-operators-rejected: err == nil ==> n.action == aEqual || n.action == aNotEqual || n.action == aLower || n.action == aLowerEqual || n.action == aGreater || n.action == aGreaterEqual
 //@   canary err == nil ==> n.child[0].typ.comparable()
+
+// Go spec, Conversions: a value converts to a type it is assignable to, a pointer or uintptr converts to
+// unsafe.Pointer and back, and otherwise the conversion must be one reflect admits between the two
+// run-time types.  Nothing else is convertible (a pointer does not convert to int, string, a struct ...).
+//@ func (t *itype) convertibleTo(o) (r)
+//@   props C12
+//@   opt safety = off
+//@   opt opaque-calls = *
+//@   opt opaque-havoc = none
+//@   requires [assume] t != nil && o != nil
+//@   let tk: t.TypeOf().Kind()
+//@   let ok: o.TypeOf().Kind()
+//@   ensures exactly-the-admitted-conversions: r == (t.assignableTo(o) || ((tk == reflect.Ptr || tk == reflect.Uintptr) && ok == reflect.UnsafePointer) || (tk == reflect.UnsafePointer && (ok == reflect.Ptr || ok == reflect.Uintptr)) || rtConvertibleTo(t.TypeOf(), o.TypeOf()))
+//@   canary r == t.assignableTo(o)
